@@ -227,3 +227,22 @@ def _reclass_squeeze(viol, res, want, site, exact, tol):
         if g2.numel() == w2.numel() and (torch.equal(g2, w2) if exact else ref.close(g2, w2, tol)):
             return [V(site + '.shape.singleton_axes_removed', 'values agree; result modes %s, dense shape %s' % (gs, ws))]
     return viol
+
+
+# ------------------------------------------------------------------------------------------------ second tier: histories
+# every history of depth 2 (3 thorough) whose last event belongs to this property, on the explicit-state explorer; the last
+# event is compared with its dense definition on the operands as they are in that state (ttmc/history_tier.py)
+from .. import history_tier as _ht
+
+_cases_e1, _run_case_e1 = cases, run_case
+
+
+def cases(tier, seed):
+    yield from _cases_e1(tier, seed)
+    yield from _ht.cases(PROPERTY, tier)
+
+
+def run_case(c):
+    if c.get('g') == 'E2':
+        return _ht.run_case(PROPERTY, c)
+    return _run_case_e1(c)
